@@ -14,8 +14,8 @@ QUICK = (
     + pick("C04", r"list\.(push|pop|push_at|pop_at|getset|rem|resize|del)\.n[23]$|list\.(concat|assign)\.n2\.m[12]|list\.bad_index\.n2", tiers=("quick",))
 )
 THOROUGH = (
-    pick("C02", r"table\.(set|rem|del|clearset|rehash|resize|assign)\.", tiers=("thorough",))
-    + pick("C03", r"tree\.(set|rem|clear)\.(q|t)", tiers=("thorough",))
+    pick("C02", r"table\.(set|rem|del|clearset|resize|assign)\..*ns5|table\.assign\.", tiers=("thorough",))
+    + pick("C03", r"tree\.(set|rem|clear)\.(q|five)", tiers=("thorough",))
     + pick("C04", r"(array|list)\.(push|pop|push_at|pop_at|getset|rem|concat|resize|sort|assign|del|bad_index)\.", tiers=("thorough",))
 )
 OBLIGATIONS = QUICK + [o for o in THOROUGH] + pick("C10", r"box_owns\.", tiers=None)
